@@ -100,11 +100,21 @@ Definition is_xmlns_decl (a : raw_attr) : bool :=
   | None => str_eqb (ra_name a) S_xmlns
   end.
 
+(* libxml2 reports "&" inside the default value of an attribute declaration as the character
+   reference "&#38;" (it is expanded once more when the default is applied to an element):
+   the value a document presents has it expanded.  Python: value.replace("&#38;", "&"). *)
+Fixpoint expand_amp38 (v : str) : str :=
+  match v with
+  | 38%N :: 35%N :: 51%N :: 56%N :: 59%N :: r => 38%N :: expand_amp38 r
+  | c :: r => c :: expand_amp38 r
+  | [] => []
+  end.
+
 Definition use_of_raw (a : raw_attr) : option attr_use :=
   if str_eqb (ra_default a) S_required then Some AReq
   else if str_eqb (ra_default a) S_implied then Some AImplied
-  else if str_eqb (ra_default a) S_fixed then option_map AFixed (ra_default_value a)
-  else if str_eqb (ra_default a) S_none then option_map ADefault (ra_default_value a)
+  else if str_eqb (ra_default a) S_fixed then option_map (fun v => AFixed (expand_amp38 v)) (ra_default_value a)
+  else if str_eqb (ra_default a) S_none then option_map (fun v => ADefault (expand_amp38 v)) (ra_default_value a)
   else None.
 
 Definition enum_of_raw (a : raw_attr) : option (list str) :=
